@@ -2,6 +2,8 @@
 LEVEL = {"C15": "fault_enumeration"}
 
 ENGINES = [
+    {"name": "E3-crashx", "path": "e3", "serves_properties": ["C15"],
+     "kind_free_text": "crash-point enumeration with real child processes killed by SIGKILL at verif-tag hook points in wasp/messages/store.go, restarted on the same directory"},
     {"name": "E2-brokermc", "path": "e2", "serves_properties": ["C01", "C02", "C03", "C05", "C07", "C11", "C12", "C13", "C14", "C16", "C17", "C18"],
      "kind_free_text": "complete 1-3 node broker wired in-process like cmd/wasp/main.go inside a Go 1.26 testing/synctest bubble (virtual time, exact quiescence); DFS over enumerated environment-event sequences, each path replayed from a fresh world in crash-contained worker processes"},
     {"name": "E1-seqx", "path": "e1", "serves_properties": ["C01", "C04", "C06", "C07", "C08", "C09", "C10", "C16", "C19"],
@@ -9,6 +11,9 @@ ENGINES = [
 ]
 
 PHASES = {
+    "C15": [
+        {"pkg": "e3", "test": "TestC15Crash", "phase": "C15/crash-points"},
+    ],
     "C18": [
         {"pkg": "e2", "test": "TestC18HostileInput", "phase": "C18/hostile-streams"},
     ],
@@ -69,6 +74,12 @@ PHASES = {
 }
 
 META = {
+    "C15": {
+        "engine": "E3-crashx",
+        "technique": "exhaustive crash-point enumeration: the real consumer runs in child processes that are killed with SIGKILL at named hook points (offset x phase), over bounded sequences of crash/restart rounds with appends in between, on real files",
+        "text": "For small logs every (offset, phase) crash point with phases callback-entered / callback-returned / before-persist / after-persist / stopped by cancellation / stopped by callback error, all ordered pairs of rounds with 0, 1 or 10 appends in between (thorough: more lengths, all triples for N=8); for a 2600-entry log (segments of 500, truncation at 2000) crash points at every segment/truncation edge and sampled batch positions (thorough: every offset) incl. before/after-truncate, plus pairs over 21 boundary offsets. Per incarnation offsets are consecutive; a restart begins no later than one past the last completed offset and replays at most the last completed one plus the one in progress; payloads match their offsets; a final run hands over everything.",
+        "note": "Crash model: process death (SIGKILL), kernel page cache survives; torn 8-byte writes and power loss are outside the model.",
+    },
     "C18": {
         "engine": "E2-brokermc",
         "technique": "exhaustive enumeration of a bounded byte-stream grammar (valid templates x structure-aware mutations x connection contexts) against the in-process broker in crash-contained worker processes, with a witness round trip after every stream",
